@@ -1,4 +1,4 @@
-import Xandikos.Theorems.C05
+import Xandikos.Theorems.C05Tree
 #print axioms Xandikos.Theorems.C05.seqRun_append
 #print axioms Xandikos.Theorems.C05.seqRun_single
 #print axioms Xandikos.Theorems.C05.getElem?_setNth_self
@@ -9,3 +9,8 @@ import Xandikos.Theorems.C05
 #print axioms Xandikos.Theorems.C05.processes_bare_lost_update
 #print axioms Xandikos.Theorems.C05.processes_duplicate_uid
 #print axioms Xandikos.Theorems.C05.filterMap_congr_mem
+#print axioms Xandikos.Theorems.C05.tree_processes_step
+#print axioms Xandikos.Theorems.C05.tree_processes_unconditional
+#print axioms Xandikos.Theorems.C05.tree_processes_unconditional_serial
+#print axioms Xandikos.Theorems.C05.TreeInv.not_ok_not_logged
+#print axioms Xandikos.Theorems.C05.TreeInv.ok_logged_once
